@@ -1,6 +1,6 @@
 (* the property-level statements of layer L2 and their proofs from the layer's theorems (the Props*.v files only [exact] these) *)
 From stdpp Require Import list numbers option.
-From L2 Require Import Model Base Own Jobs Shape DwInv Pool OpShape Fut Sig Task TaskInv Wake WakeInv Term Complete Susp Zero ZeroInv ZeroTerm Facts Waiter WaiterTerm.
+From L2 Require Import Model Base Own Jobs Shape DwInv Pool OpShape Fut Sig Task TaskInv Wake WakeInv Term Complete Susp Zero ZeroInv ZeroTerm Facts Waiter WaiterTerm YDefs YInv YThm YThm1 YTerm.
 
 (* ---------- C01 ---------- *)
 Definition C01_full : Prop :=
@@ -134,7 +134,8 @@ Proof. split; [apply C07_safety_main|]. split; [apply C07_value_main|]. split; [
 (* ---------- zero pool runners ---------- *)
 (* C06 / C07 with ZERO pool runners: one caller that only schedules plain / future jobs and awaits (or detaches) its futures - no
    sync, no suspend - and any number of callers that only fire events: the awaiting caller finishes its script *)
-Definition sigfree (body : list fprim) : Prop := Forall (fun p => match p with PSignal _ => False | _ => True end) body.
+Definition sigfree (body : list fprim) : Prop :=
+  Forall (fun p => match p with PSignal _ | PSendReady _ | PAwaitDone _ => False | _ => True end) body.
 Definition await_only (sc : list cop) : Prop :=
   Forall (fun o => match o with ODesync => True | OFuture body UAwait | OFuture body UDetach => sigfree body | _ => False end) sc.
 Definition fire_only (sc : list cop) : Prop := Forall (fun o => match o with OFire _ => True | _ => False end) sc.
@@ -151,7 +152,7 @@ Proof. unfold sigfree, sigfreeb. induction 1 as [|p r Hp _ IH]; [done|]. cbn. re
 Lemma await_only_b sc : await_only sc -> forallb awaitb sc = true.
 Proof.
   unfold await_only. induction 1 as [|o r Ho _ IH]; [done|]. cbn. rewrite IH, andb_true_r.
-  destruct o as [|body u| | |]; try done. destruct u; try done; by apply sigfree_b.
+  destruct o as [|body u| | | |]; try done. destruct u; try done; by apply sigfree_b.
 Qed.
 Lemma fire_only_b sc : fire_only sc -> forallb fireb sc = true.
 Proof. unfold fire_only. induction 1 as [|o r Ho _ IH]; [done|]. cbn. rewrite IH. by destruct o. Qed.
@@ -251,9 +252,9 @@ Qed.
 (* a caller that never awaits a future (desync, sync, SchedulerFuture::sync, poll a future n times and drop it, detach, fire)
    finishes its script: any position, any other callers, any pool size *)
 Definition noawait (sc : list cop) : Prop :=
-  Forall (fun o => match o with OFuture _ UAwait | OSuspend _ UAwait => False | _ => True end) sc.
+  Forall (fun o => match o with OFuture _ UAwait | OSuspend _ UAwait | OFutSync _ UAwait => False | _ => True end) sc.
 Lemma noawait_b sc : noawait sc -> forallb noaw_op sc = true.
-Proof. unfold noawait. induction 1 as [|o r Ho _ IH]; [done|]. cbn. rewrite IH, andb_true_r. destruct o as [|? u|? u| |]; try done; by destruct u. Qed.
+Proof. unfold noawait. induction 1 as [|o r Ho _ IH]; [done|]. cbn. rewrite IH, andb_true_r. destruct o as [|? u|? u| | |? u]; try done; by destruct u. Qed.
 Definition C04_noawait_caller_finishes : Prop :=
   forall (T : ftables), all_cond T -> claim_cond T ->
   forall scripts npool nev tr s c sc, scripts !! c = Some sc -> noawait sc ->
@@ -268,3 +269,94 @@ Definition C06_zero_pool_sync_full : Prop :=
   run T (init (sc0 :: others) 0 nev) tr = Some s -> terminal T s -> all_fired s -> stacks s !! 0 = Some [FTop []].
 Lemma C06_zero_pool_sync_main : C06_zero_pool_sync_full.
 Proof. intros T HA HC sc0 others nev tr s Hn. by apply (C04_noawait_caller_finishes_main T HA HC (sc0 :: others) 0 nev tr s 0 sc0). Qed.
+
+(* ---------- C08: future_sync on the real queue machinery ----------
+   [OFutSync body u]: one call of Desync::future_sync; the ghost events GYnew o f r (the call: slot job o, SchedulerFuture f, oneshot
+   cells r = queue_ready, S r = done), GUStart / GUStep / GUFinish / GUCancel o (the user future of the call is created / advanced by
+   one primitive / completes / is destroyed unfinished), GYdrop o (the SyncFuture is dropped before Ready: drop of `task_finished`).
+   [ywf nev scripts] (YDefs.v): user bodies consist of PTouch / PAwait e / PAwaitEither e1 e2 with e < nev, OFire / OSuspend name
+   external events (the oneshot cells of future_sync are not addressable by programs).  The ghost log is newest-first:
+   [log s = l2 ++ e :: l1] reads "e happened, l1 is everything before it". *)
+Definition C08_1_runs_only_when_awaited : Prop :=
+  forall (T : ftables), all_cond T ->
+  forall scripts npool nev tr s, ywf nev scripts -> run T (init scripts npool nev) tr = Some s ->
+  (* an event of the user future of call o is produced only by a step of the actor that holds the SyncFuture of that call on top
+     of its stack (its caller's task), after queue_ready was sent and before task_finished is *)
+  (forall a s' l e o, step T s a = Some s' -> s'.(log) = l ++ s.(log) -> e ∈ l -> user_ev e = Some o ->
+     exists pc y st u rest, stacks s !! a = Some (FY pc y st u :: rest) /\ y.(y_op) = o /\
+       GYnew o y.(y_f) y.(y_r) ∈ s.(log) /\ (getev s y.(y_r)).(fired) = true /\ (getev s (S y.(y_r))).(fired) <> true) /\
+  (* queue_ready of a call is sent only by a step of that call's slot job *)
+  (forall a s' o f r, step T s a = Some s' -> GYnew o f r ∈ s.(log) -> (getev s r).(fired) <> true -> (getev s' r).(fired) = true ->
+     exists sc w k rest, stacks s !! a = Some (FJob (JFut o Waiting (PSendReady r :: sc)) w k :: rest)).
+Lemma C08_1_main : C08_1_runs_only_when_awaited.
+Proof.
+  intros T HA scripts npool nev tr s Hwf Hr. pose proof (ya_y _ _ (reachable_yall nev T HA _ _ _ _ Hwf Hr)) as HY. split.
+  - intros a s' l e o. apply (user_event_step nev T s a s' l e o HY).
+  - intros a s' o f r Hs Hg. apply (ready_sent_step nev T s a s' o f r HY Hs). by apply ynews_in.
+Qed.
+Definition C08_2_only_inside_its_exclusive_slot : Prop :=
+  forall (T : ftables), all_cond T ->
+  forall scripts npool nev tr s l2 e l1, ywf nev scripts -> run T (init scripts npool nev) tr = Some s -> s.(log) = l2 ++ e :: l1 ->
+  (* every event of the user future lies inside the slot of its call's job: that job has started, and NOTHING has started or
+     finished since (in particular not the job itself) *)
+  (forall o, user_ev e = Some o ->
+     (exists la lb, l1 = la ++ GStart o :: lb /\ forall o', GStart o' ∉ la /\ GFinish o' ∉ la) /\ exists f r, GYnew o f r ∈ l1) /\
+  (* between Start o and Finish o no other operation starts *)
+  (forall o, e = GStart o -> GFinish o ∉ l2 -> forall o', GStart o' ∉ l2).
+Lemma C08_2_main : C08_2_only_inside_its_exclusive_slot.
+Proof.
+  intros T HA scripts npool nev tr s l2 e l1 Hwf Hr E. split.
+  - intros o He. by apply (user_events_in_slot T HA scripts npool nev Hwf tr s Hr l2 e l1 o).
+  - intros o -> Hn. destruct HA as [A1 A2 A3]. by eapply (log_exclusive T).
+Qed.
+Definition C08_3_result : Prop :=
+  forall (T : ftables), all_cond T ->
+  forall scripts npool nev tr s l2 e l1, ywf nev scripts -> run T (init scripts npool nev) tr = Some s -> s.(log) = l2 ++ e :: l1 ->
+  (* the result of the SyncFuture (of its SchedulerFuture f) is delivered only after the slot job signalled it, with the slot job's
+     value, after the user future completed, and never after a drop *)
+  (forall f v o r, e = GResolve f v -> GYnew o f r ∈ l1 -> v = o /\ GSig f o ∈ l1 /\ GUFinish o ∈ l1 /\ GYdrop o ∉ l1) /\
+  (* the slot job signals only after the user future completed, or the SyncFuture was dropped and a started user future destroyed *)
+  (forall f v o r, e = GSig f v -> GYnew o f r ∈ l1 ->
+     v = o /\ (GUFinish o ∈ l1 \/ GYdrop o ∈ l1) /\ (GUStart o ∈ l1 -> GUFinish o ∈ l1 \/ GUCancel o ∈ l1)) /\
+  (* the user future starts and completes at most once, and completes only if it was started and not destroyed *)
+  (forall o, e = GUFinish o -> GUStart o ∈ l1 /\ GUFinish o ∉ l1 /\ GUCancel o ∉ l1) /\
+  (forall o, e = GUStart o -> GUStart o ∉ l1).
+Lemma C08_3_main : C08_3_result.
+Proof. intros T HA scripts npool nev tr s l2 e l1 Hwf Hr E. exact (result_after_completion T HA scripts npool nev Hwf tr s Hr l2 e l1 E). Qed.
+Definition C08_4_clean_cancellation : Prop :=
+  forall (T : ftables), all_cond T ->
+  forall scripts npool nev tr s l2 e l1, ywf nev scripts -> run T (init scripts npool nev) tr = Some s -> s.(log) = l2 ++ e :: l1 ->
+  (* after the drop the user future is neither created nor run *)
+  (forall o, user_ev e = Some o -> GYdrop o ∉ l1) /\
+  (* it is destroyed only if it was started and had not finished, at most once, and its destruction (which may run user destructors
+     holding `&mut T`) lies inside the exclusive slot: the slot job has not passed done_recv *)
+  (forall o, e = GUCancel o ->
+     (exists la lb, l1 = la ++ GStart o :: lb /\ forall o', GStart o' ∉ la /\ GFinish o' ∉ la) /\
+     GUStart o ∈ l1 /\ GUFinish o ∉ l1 /\ GUCancel o ∉ l1) /\
+  (* the drop of task_finished comes once, not after completion, and after the user future is gone (field order of the code) *)
+  (forall o, e = GYdrop o -> GYdrop o ∉ l1 /\ GUFinish o ∉ l1 /\ (GUStart o ∈ l1 -> GUCancel o ∈ l1)) /\
+  (* when the slot job ends, the user future has finished or the SyncFuture was dropped, and a started user future is gone *)
+  (forall o f r, e = GFinish o -> GYnew o f r ∈ l1 ->
+     (GUFinish o ∈ l1 \/ GYdrop o ∈ l1) /\ (GUStart o ∈ l1 -> GUFinish o ∈ l1 \/ GUCancel o ∈ l1)).
+Lemma C08_4_main : C08_4_clean_cancellation.
+Proof. intros T HA scripts npool nev tr s l2 e l1 Hwf Hr E. exact (clean_cancellation T HA scripts npool nev Hwf tr s Hr l2 e l1 E). Qed.
+(* dropping never blocks: the two drop steps of a SyncFuture are always enabled *)
+Definition C08_4_drop_never_blocks : Prop :=
+  forall (T : ftables) s a ac pc y st u rest, s.(actors) !! a = Some ac -> ac.(stack) = FY pc y st u :: rest ->
+  pc = YPdrop1 \/ pc = YPdrop2 -> exists s', step T s a = Some s'.
+Lemma C08_4_drop_never_blocks_main : C08_4_drop_never_blocks.
+Proof.
+  intros T s a ac pc y st u rest Ea Est Hpc. unfold step. rewrite Ea. cbn. rewrite Est.
+  destruct Hpc as [-> | ->]; [destruct st|]; cbn; by eexists.
+Qed.
+(* (5) releases the queue, terminal form, at least one pool thread.  Only the EXTERNAL events are assumed fired: that the oneshot
+   cells of every call are fired in the end (queue_ready sent, task_finished sent or dropped) is part of the conclusion *)
+Definition C08_5_releases_the_queue : Prop :=
+  forall (T : ftables), all_cond T ->
+  forall scripts npool nev tr s, ywf nev scripts -> npool >= 1 -> run T (init scripts npool nev) tr = Some s -> terminal T s ->
+  (forall e, e < nev -> (getev s e).(fired) = true) ->
+  all_fired s /\ s.(qs) = Idle /\ s.(jobs) = [] /\ held s = [] /\
+  (forall c st, stacks s !! c = Some st -> st = [FTop []] \/ st = [FPIdle]) /\
+  (forall o f r, GYnew o f r ∈ s.(log) -> GStart o ∈ s.(log) /\ GFinish o ∈ s.(log) /\ (GUFinish o ∈ s.(log) \/ GYdrop o ∈ s.(log))).
+Lemma C08_5_main : C08_5_releases_the_queue.
+Proof. intros T HA scripts npool nev tr s. apply (futsync_releases_queue T HA). Qed.
